@@ -93,7 +93,8 @@ def evaluate(case):
         if ref is not None:
             rF, gF = ref
             _, gP, _ = t.S_to_g(q, sq, rF, rho=ft["rho"], lorch=True, OmittedXrangeCorrection=True)
-            if exceeds(np.abs(np.asarray(gP) - gF).max(), 1e-9 * max(1.0, float(np.abs(gF - 1).max()))):
+            cond = fortran.lowq_conditioning(float(q[0]), float(sq[0]), float(q[-1]), rF, True, ft["rho"])
+            if not np.all(np.abs(np.asarray(gP) - gF) <= 1e-9 * max(1.0, float(np.abs(gF - 1).max())) + cond):
                 fails.append(f"Lorch-damped S_to_g differs from the compiled Fortran stog_bit with its window by {np.abs(np.asarray(gP) - gF).max():.3g}")
     return fails
 
